@@ -309,3 +309,85 @@ package resolver
 //@   assert at return#2: result1 != nil && result0 == nil
 //@   assert at return#3: result1 != nil && result0 == nil && lastret("(*encoding/gob.Decoder).Decode") != nil
 //@   assert at return#4: result1 == nil && lastret("(*encoding/gob.Decoder).Decode") == nil && lastret("os.Open", 1) == nil
+//@
+//@ # ---- C01 (second layer): chain verification. verifyDNSSEC (abstracting tier) says "verified" only after: DNSKEYs
+//@ # owned by the signer (ZSK/KSK flags only) were collected, the DS set verified against them, and the RRSIG pass over
+//@ # the reply under the SAME signer and keys succeeded; a failed DS verification is "insecure" (false, nil) only when
+//@ # every DS digest was unsupported, otherwise an error
+//@ func (*Resolver).verifyDNSSEC
+//@   abstract
+//@   nosafety all pre
+//@   assert at call middleware/resolver/dnssec.KeyTag#1: arg0 == dnskey && foldEq(dnskey.Hdr.Name, signerLower) && (dnskey.Flags == 256 || dnskey.Flags == 257)
+//@   assert at mapupdate#1: themap == keys
+//@   assert at call middleware/resolver/dnssec.VerifyDSWithWork#1: arg0 == keys && arg1 == parentdsRR && len(parentdsRR) > 0
+//@   assert at call middleware/resolver/dnssec.VerifyRRSIGWithWork#1: arg0 == signer && arg1 == keys && arg2 == resp && lastret("middleware/resolver/dnssec.VerifyDSWithWork", 1) == nil
+//@   assert at return#12: result0 && result1 == nil && lastret("middleware/resolver/dnssec.VerifyRRSIGWithWork") && lastret("middleware/resolver/dnssec.VerifyRRSIGWithWork", 1) == nil && lastret("middleware/resolver/dnssec.VerifyDSWithWork", 1) == nil
+//@   assert at return#4: result0 && result1 == nil && lastret("(*middleware/resolver.Resolver).verifyRootKeys") && lastret("(*middleware/resolver.Resolver).verifyRootKeys", 1) == nil
+//@   assert at return#7: !result0 && result1 == nil && lastret("middleware/resolver/dnssec.VerifyDSWithWork") && lastret("middleware/resolver/dnssec.VerifyDSWithWork", 1) != nil
+//@   assert at return#2: !result0
+//@   assert at return#3: !result0
+//@   assert at return#5: !result0
+//@   assert at return#6: !result0
+//@   assert at return#9: !result0
+//@   assert at return#10: result1 != nil
+//@   assert at return#11: !result0 && result1 == nil
+//@   assert at return#1: result1 != nil
+//@   assert at return#8: result1 != nil
+//@
+//@ # a delegation is reported insecure only on an authenticated proof: the DS answer verified under the parent's DS
+//@ # set, and either an unsupported-only DS set or a verified NSEC3/NSEC delegation proof filtered to the signer zone
+//@ func (*Resolver).authenticatedDelegationDS
+//@   abstract
+//@   nosafety all pre
+//@   assert at call (*middleware/resolver.Resolver).verifyDNSSEC#1: arg2 == signer && arg3 == child && arg4 == lastret("(*middleware/resolver.Resolver).lookupDS") && arg5 == parentDS && lastret("(*middleware/resolver.Resolver).lookupDS", 1) == nil
+//@   assert at return#4: result1 && result2 == nil && lastret("(*middleware/resolver.Resolver).verifyDNSSEC") && !lastret("middleware/resolver.hasSupportedDS") && len(result0) > 0
+//@   assert at return#5: !result1 && result2 == nil && lastret("(*middleware/resolver.Resolver).verifyDNSSEC") && len(result0) > 0
+//@   assert at return#7: result1 && result2 == nil && lastret("(*middleware/resolver.Resolver).verifyDNSSEC") && lastret("middleware/resolver/dnssec.VerifyDelegationForZoneWithWork") == nil
+//@   assert at return#9: result1 && result2 == nil && lastret("(*middleware/resolver.Resolver).verifyDNSSEC") && lastret("middleware/resolver/dnssec.VerifyDelegationNSEC") == nil
+//@   assert at call middleware/resolver/dnssec.VerifyDelegationForZoneWithWork#1: arg0 == child && arg1 == signer && arg2 == lastret("internal/dnsutil.FilterRRsToZone")
+//@   assert at call middleware/resolver/dnssec.VerifyDelegationNSEC#1: arg0 == child && arg1 == lastret("internal/dnsutil.FilterRRsToZone")
+//@   assert at call internal/dnsutil.FilterRRsToZone#1: arg1 == signer
+//@   assert at call internal/dnsutil.FilterRRsToZone#2: arg1 == signer
+//@   assert at return#1: !result1 && result2 != nil
+//@   assert at return#2: !result1 && result2 != nil
+//@   assert at return#3: !result1 && result2 != nil
+//@   assert at return#6: !result1 && result2 != nil
+//@   assert at return#8: !result1 && result2 != nil
+//@   assert at return#10: !result1 && result2 != nil
+//@
+//@ # unsigned data under a signed zone is accepted only when an insecure delegation between the zone and the name is
+//@ # proven by authenticatedDelegationDS; every other outcome (error, secure all the way, no proof) is "not proven"
+//@ func (*Resolver).provenInsecureDelegation
+//@   abstract
+//@   nosafety all pre
+//@   assert at return#3: result && lastret("(*middleware/resolver.Resolver).authenticatedDelegationDS", 1) && lastret("(*middleware/resolver.Resolver).authenticatedDelegationDS", 2) == nil
+//@   assert at return#1: !result
+//@   assert at return#2: !result
+//@   assert at return#4: !result
+//@   assert at return#5: !result
+//@   assert at call (*middleware/resolver.Resolver).authenticatedDelegationDS#1: arg2 == curSigner && arg3 == candidate && arg4 == curDS
+//@
+//@ # a lookup error while deciding whether the zone is signed fails CLOSED (treated as signed)
+//@ func (*Resolver).isZoneSecure
+//@   abstract
+//@   nosafety all pre
+//@   assert at return#3: result && lastret("(*middleware/resolver.Resolver).findDS", 1) != nil
+//@   assert at return#1: !result && !lastret("middleware/resolver.hasSupportedDS#1")
+//@   assert at return#4: result == lastret("middleware/resolver.hasSupportedDS#2")
+//@
+//@ # ---- C01 / C11: a resolution error reaches the client as SERVFAIL built from the request (with the error's EDE),
+//@ # never as the partial upstream data; the resolver is entered with AD and RD cleared and, when validation is
+//@ # configured, with the CLIENT's CD bit unchanged
+//@ func (*DNSHandler).handle
+//@   abstract
+//@   nosafety all pre
+//@   assert at call (*middleware/resolver.Resolver).Resolve#1: arg2 == req && calls("(*middleware/resolver.Resolver).Resolve") == 0
+//@   assert at store dns.MsgHdr.RecursionDesired#1: !value
+//@   assert at store dns.MsgHdr.AuthenticatedData#1: !value
+//@   assert at store dns.MsgHdr.CheckingDisabled#1: value == !h.resolver.dnssec && !req.CheckingDisabled
+//@   assert at call internal/dnsutil.SetRcodeWithEDE#1: lastret("(*middleware/resolver.Resolver).Resolve", 1) != nil && arg0 == req && arg1 == dns.RcodeServerFailure && arg3 == lastret("internal/dnsutil.ErrorToEDE") && arg4 == lastret("internal/dnsutil.ErrorToEDE", 1)
+//@   assert at call internal/dnsutil.ErrorToEDE#1: arg0 == lastret("(*middleware/resolver.Resolver).Resolve", 1)
+//@   assert at return#5: result == lastret("internal/dnsutil.SetRcodeWithEDE#1") && lastret("(*middleware/resolver.Resolver).Resolve", 1) != nil
+//@   assert at return#8: result == lastret("(*middleware/resolver.Resolver).Resolve") && lastret("(*middleware/resolver.Resolver).Resolve", 1) == nil
+//@   assert at call internal/dnsutil.SetRcodeWithEDE#2: arg1 == dns.RcodeServerFailure && arg0 == req
+//@   assert at call internal/dnsutil.SetRcodeWithEDE#3: arg1 == dns.RcodeServerFailure && arg0 == req
